@@ -18,7 +18,7 @@ from nflows import transforms as T
 
 PROPERTY = "C08"
 RULE = (
-    "(1) every well-formed wrapper program with <=5 (thorough <=7) nodes over 6 non-commuting leaves {2x+1, -0.5x+3, LeakyReLU(0.2), ReversePermutation(3), "
+    "(1) every well-formed wrapper program with <=6 (thorough <=7) nodes over 6 non-commuting leaves {2x+1, -0.5x+3, LeakyReLU(0.2), ReversePermutation(3), "
     "MaskedAffineAutoregressive(3) with pattern weights, the same with a 2-d context}, forward and inverse, on a 2x3 batch; (2) MultiscaleCompositeTransform for every input shape with <=3 non-batch "
     "dims of sizes 2..5, every split_dim <= ndim, 1..3 stages (stage k = x -> prime_k * x + 10^(k+1) + context value, so every stage must be handed the context), incl. the combinations its constructor must reject, plus the documented "
     "misuse errors. Non-trivial = program with >=2 leaves or a multiscale with >=2 stages."
@@ -32,7 +32,7 @@ PRIMES = [2.0, 3.0, 5.0]
 
 
 def bounds(tier, seed):
-    return {"max_nodes": 5 if tier == "quick" else 7, "leaves": 5, "multiscale_shapes": "all with <=3 dims of sizes 2..5", "stages": [1, 2, 3]}
+    return {"max_nodes": 6 if tier == "quick" else 7, "leaves": 5, "multiscale_shapes": "all with <=3 dims of sizes 2..5", "stages": [1, 2, 3]}
 
 
 # ----------------------------------------------------------------------------- programs
@@ -327,7 +327,7 @@ def ms_cases():
 
 
 def units(tier, seed):
-    maxn = 5 if tier == "quick" else 7
+    maxn = 6 if tier == "quick" else 7
     us = []
     for n in range(1, maxn + 1):
         parts = 1 if n <= 4 else (4 if n == 5 else 16)
